@@ -2,6 +2,7 @@
 from __future__ import annotations
 
 import ast
+from fractions import Fraction
 
 from ..core import AnalysisError
 from ..poly import P
@@ -297,9 +298,29 @@ def r10_2(chk, repo, cr):
         if not (t and t[0] == "sub" and t[1].as_atom() and t[1].as_atom()[0] == "obj" and len(t[2]) == 1):
             continue
         mask = t[2][0]
-        if not find_atoms(mask, lambda a: a[0] in ("lt", "le", "eq")):
+        close = find_atoms(mask, lambda a: a[0] == "call" and call_name(a) in ("numpy.isclose",))
+        if not find_atoms(mask, lambda a: a[0] in ("lt", "le", "eq")) and not close:
             continue
         snaps += 1
+        # the tolerance below which two parameters are written as one value must not exceed the written precision
+        # (CELL carries >= 5 decimals, R10.5): an absolute constant <= 1e-5; a relative tolerance grows with the value
+        tol_ok, tol_found = False, None
+        if close:
+            kw = dict(close[0][3]) if len(close[0]) > 3 and close[0][3] else {}
+            rt, at = kw.get("rtol"), kw.get("atol")
+            tol_found = f"numpy.isclose(rtol={rt if rt is not None else '1e-05 (default, relative)'}, atol={at if at is not None else '1e-08 (default)'})"
+            tol_ok = rt is not None and rt.const_value() == 0 and at is not None and at.const_value() is not None and 0 < at.const_value() <= Fraction(1, 10 ** 5)
+        else:
+            for a in find_atoms(mask, lambda a: a[0] in ("lt", "le")):
+                bound = a[2]
+                bv = bound.const_value()
+                inner = a[1].as_atom()
+                if bv is not None and inner and call_name(inner) in ("numpy.abs", "abs", "numpy.absolute", "numpy.fabs"):
+                    tol_found = f"|difference| {a[0]} {float(bv):g}"
+                    tol_ok = 0 < bv <= Fraction(1, 10 ** 5)
+        chk.ob("R10.2", "crystal/unit_cell.py", pq, "parameters are merged only below an absolute tolerance no larger than the written precision (1e-5)",
+               tol_ok, node=e.node, fingerprint=f"snap-tol:{t[1].as_atom()[1]}", expected="|x_i - x_j| < atol with a constant atol <= 1e-5",
+               found=tol_found or str(mask)[:120])
         objs = {P.atom(a).key() for a in find_atoms(mask, lambda a: a[0] == "obj")} | {P.atom(a).key() for a in find_atoms(e.value, lambda a: a[0] == "obj")}
         chk.ob("R10.2", "crystal/unit_cell.py", pq, "a masked overwrite X[mask] = X[i] uses a mask computed from X itself (lengths snap to lengths, angles to angles)",
                objs == {t[1].key()}, node=e.node, fingerprint=f"snap:{t[1].as_atom()[1]}:{e.value}", expected=f"mask and value derived from {t[1]} only",
